@@ -18,7 +18,8 @@ run_one() {
   rc=$(echo "$res" | grep -o 'MUTANT-RESULT.*exit=[0-9]*' | grep -o '[0-9]*$')
   cls=$(echo "$res" | grep -m1 '^violation' | sed 's/violation class=//;s/ first_run.*//')
   if [ "$rc" = "1" ]; then got=1; else got=0; fi
-  if [ "$got" = "$want" ]; then echo "SAME      $id detected=$got ($cls)"; else echo "CHANGED   $id recorded=$want now=$got exit=$rc ($cls)"; fi
+  hf=$(echo "$res" | grep -m1 'HARNESS' | cut -c1-400)
+  if [ "$got" = "$want" ]; then echo "SAME      $id detected=$got ($cls)"; else echo "CHANGED   $id recorded=$want now=$got exit=$rc ($cls) $hf"; fi
 }
 export -f run_one
 ls -d "$ROOT"/seeded/C*/ | sed 's#/$##' | xargs -P "$JOBS" -I{} bash -c 'run_one "$@"' _ {} "$ROOT" "$OUT" | tee "$OUT/result.txt"
